@@ -458,6 +458,8 @@ def gen_expect(seed):
             ops.append(['y', rng.randint(1, 6)])
         ops.append(['expect', rng.choice(names), rng.choice(['E', 'E', 'F']), rng.choice(['any', 'odd', 'even', 'big', 'boom', 'none']),
                     rng.choice(['none', 'none', 'odd', 'big']), rng.choice([None, 2, 5, 20, 20]), rng.random() < 0.3])
+        if rng.random() < 0.15:      # the call is cancelled before it has taken a single step (task cancelled at once / wait_for(..., 0))
+            ops[-1].append(rng.choice(['task0', 'wf0']))
         drivers.append(ops)
     prod = []
     for k in range(rng.randint(1, 6)):
@@ -813,6 +815,82 @@ def sys_idle_target():
     return out
 
 
+def sys_gather_await():
+    """C04 when a handler awaits its children through helper tasks (asyncio.gather, TaskGroup, ensure_future): every helper task inherits
+    the handler's context and must be able to process the children inline - no deadlock against the bus running the handler"""
+    out = []
+    for how, tgt, n, slow, par, grand, order in itertools.product(['g', 'tg', 'ef'], ['b1', 'b2'], [2, 3], [0, 2], [False, True], [False, True], ['fwd', 'rev']):
+        r_ops = [['d', tgt, 'C'] for _ in range(n)] + [['ga', how] + list(range(n)), ['y', 1]]
+        c_ops = ([['d', 'b1', 'G'], ['ga', how, 0]] if grand else []) + ([['s', slow]] if slow else [])
+        scripts = {'S1': {'R': r_ops, 'C': c_ops, 'G': [['y', 1]], 'L': []}, 'S2': {'C': c_ops, 'G': [], 'L': []}}
+        handlers = [wild('b1', 'S1', hid='h1'), wild('b2', 'S2', hid='h2')]
+        d = [['d', 'b1', 'R'], ['d', 'b1', 'L'], ['a', 0], ['idle', 'b1', 2000], ['idle', 'b2', 2000]]
+        x = scn([bus('b1', parallel=par), bus('b2')], handlers, scripts, [d], horizon=6000, tag='gather_await')
+        x['busorder'] = order
+        out.append(x)
+    return out
+
+
+def sys_par_held():
+    """C06 when a child sits with another bus's run loop (taken off its queue, waiting for the lock) while its dispatcher polls for it:
+    nobody but the awaited tree may run in the meantime - neither a sibling handler's inline work on a parallel_handlers bus nor, after the
+    dispatcher's timeout, the next event of its bus"""
+    out = []
+    for par, tmo, csleep, sib, order in itertools.product([True, False], [None, 6], [5, 40], ['await', 'sleep', 'none'], ['fwd', 'rev']):
+        if not par and sib != 'none':
+            continue
+        scripts = {'HA': {'R': [['d', 'b2', 'C'], ['y', 2], ['a', 0], ['y', 1]]},
+                   'HB': {'R': [['s', 1], ['d', 'b1', 'K'], ['a', 0]] if sib == 'await' else [['s', 3]]},
+                   'HK': {'K': [['s', 2]], 'L': [['s', 1]]}, 'S2': {'C': [['s', csleep]]}}
+        handlers = [typed('b1', 'R', 'HA', hid='ha')] + ([typed('b1', 'R', 'HB', hid='hb')] if sib != 'none' else [])
+        handlers += [typed('b1', 'K', 'HK', hid='hk'), typed('b1', 'L', 'HK', hid='hl'), wild('b2', 'S2', hid='h2')]
+        d = [['d', 'b2', 'W'], ['a', 0], ['s', 150], ['d', 'b1', 'R'], ['d', 'b1', 'L'], ['a', 1], ['idle', 'b1', 2000], ['idle', 'b2', 2000]]
+        scripts['S2']['W'] = []
+        x = scn([bus('b1', parallel=par), bus('b2')], handlers, scripts, [d], events=({'R': {'timeout': tmo}} if tmo else {}), horizon=8000, tag='par_held')
+        x['busorder'] = order
+        out.append(x)
+    return out
+
+
+def sys_capacity_fwd():
+    """C14 with forwarding: a handler on a hub awaits many children one by one while every child is also forwarded to a second, bounded bus
+    whose run loop cannot run meanwhile: that bus's 50-slot queue fills with events that already look complete; further forwards are
+    rejected, and whatever was accepted is still processed there"""
+    out = []
+    for n, mh, awaited in itertools.product([45, 55, 70], [60, 100], [True, False]):
+        r_ops = []
+        for i in range(n):
+            r_ops += [['d', 'b1', 'K']] + ([['a', i]] if awaited else [])
+        r_ops.append(['s', 2])
+        scripts = {'S1': {'R': r_ops, 'K': []}, 'S2': {'K': [], 'R': []}}
+        handlers = [typed('b1', 'R', 'S1', hid='hr'), typed('b1', 'K', 'S1', hid='hk'), fwd('b1', 'b2', 'K'), wild('b2', 'S2', hid='h2')]
+        d = [['d', 'b1', 'R'], ['a', 0], ['idle', 'b1', 3000], ['idle', 'b2', 3000]]
+        out.append(scn([bus('b1', maxhist=200), bus('b2', maxhist=mh)], handlers, scripts, [d], horizon=10000, tag='capacity_fwd'))
+    return out
+
+
+def gen_fwd_timeout(seed):
+    """forwarding graphs with handler timeouts (and some parallel buses): an event in flight on several buses whose processing on one of
+    them is interrupted (C08, C10, C07)"""
+    rng = random.Random(seed * 13 + 7)
+    s = gen_fwd(seed * 7 + 3)
+    tys = set()
+    for sc in s['scripts'].values():
+        tys |= set(sc.keys())
+    tys = sorted(tys)
+    for ty in rng.sample(tys, min(len(tys), rng.randint(1, 2))):
+        s['events'][ty] = {'timeout': rng.choice([1, 2, 3, 4, 6])}
+    for b in s['buses']:
+        if rng.random() < 0.25:
+            b['parallel'] = True
+    for ops in s['drivers']:
+        for op in ops:
+            if op[0] == 'idle' and len(op) == 2:
+                op.append(2000)
+    s['tag'] = 'fwd_timeout'
+    return s
+
+
 def gen_wal(seed):
     rng = random.Random(seed)
     nb = rng.choice([1, 2, 2, 3])
@@ -984,6 +1062,10 @@ def gen_timeout_par(seed):
 
 
 FAMILIES = {
+    'fwd_timeout': ('rand', gen_fwd_timeout),
+    'par_held': ('sys', sys_par_held),
+    'capacity_fwd': ('sys', sys_capacity_fwd),
+    'gather_await': ('sys', sys_gather_await),
     'idle_target': ('sys', sys_idle_target),
     'stop_clear': ('sys', sys_stop_clear),
     'cancel_cleanup': ('sys', sys_cancel_cleanup),
